@@ -84,6 +84,21 @@ Theorem C20_string_methods : forall me je mh jh s args js f jh' jr,
 Proof. exact str_sim. Qed.
 Print Assumptions C20_string_methods.
 
+(* split, indexOf and the case mappings as ECMA-262 words them (SplitMatch loop, smallest matching
+   position, the 26 letter pairs) are, on every string and separator, what the Go library
+   routines the code calls compute (strings.Split / Index / ToUpper / ToLower on ASCII) *)
+Theorem C20_string_readings_agree : forall r s : bytes,
+  js_split r s = str_split r s /\ js_index_of r s = str_index r s /\
+  map js_up s = map up_char s /\ map js_low s = map low_char s.
+Proof. exact js_string_readings. Qed.
+Print Assumptions C20_string_readings_agree.
+
+(* split drops and trims nothing: joining the pieces with the separator gives the string back
+   (blanks at the ends and adjacent blanks therefore give empty pieces) *)
+Theorem C20_split_join : forall sep s : bytes, join sep (js_split sep s) = s.
+Proof. exact split_join. Qed.
+Print Assumptions C20_split_join.
+
 (* the sort both sides apply to the (ToString key, element) pairs is a sort: a permutation,
    ordered by the byte order of the keys (= UTF-16 code unit order on ASCII) *)
 Theorem C20_sort_spec : forall (A : Type) (l : list (bytes * A)),
